@@ -330,6 +330,15 @@ type GovModel struct {
 	Rejected int
 	// SpentFromGov: a passed proposal executed a message that pays out of the governance account
 	SpentFromGov bool
+	// Executed: the custom messages of the proposals that passed and executed in the block just
+	// ended, each with the model's expectation taken immediately before it was applied
+	Executed []GovExec
+}
+
+type GovExec struct {
+	Proposal uint64
+	Msg      sdk.Msg
+	Exp      Expectation
 }
 
 // ---------------------------------------------------------------------------------------------
@@ -894,6 +903,7 @@ func FlattenDeep(msgs []sdk.Msg) (leaves []Leaf, viaGroup int) {
 }
 
 func (m *Models) afterEnd(w *World, _ abci.ResponseEndBlock) {
+	m.Gov.Executed = nil
 	if len(m.Gov.Pending) == 0 {
 		return
 	}
@@ -915,6 +925,9 @@ func (m *Models) afterEnd(w *World, _ abci.ResponseEndBlock) {
 		case govv1.StatusPassed:
 			for _, msg := range m.Gov.Pending[id].Msgs {
 				for _, lf := range Flatten([]sdk.Msg{msg}) {
+					if isCustom(msgKind(lf.Msg)) {
+						m.Gov.Executed = append(m.Gov.Executed, GovExec{id, lf.Msg, m.Expect(lf.Msg)})
+					}
 					m.Apply(lf.Msg, w.Now, w.BlockIdx)
 				}
 			}
